@@ -204,6 +204,15 @@ def run_property(prop, tier, only_seeds=None, only_ops=None):
             j2.update(atomic=False, composites=True, composite_cap=4 if tier == "quick" else 16, budget_s=j["budget_s"] * 0.6)
             cj0.append(j2)
         jobs = jobs + cj0
+    if prop in ("C01", "C04") and not os.environ.get("VERIF_NO_GRID"):
+        # tight schedule grids (vlib/tight_sched.py): complete small grids of numeric arguments for the
+        # bounds-/dependence-checked operations, one extra job per seed
+        gj = []
+        for j in [j for j in jobs if j.get("atomic", True)]:
+            j2 = dict(j)
+            j2.update(atomic=False, composites=False, grid=True, budget_s=j["budget_s"] * 0.8)
+            gj.append(j2)
+        jobs = jobs + gj
     if prop == "C05" and not os.environ.get("VERIF_NO_TIGHT"):
         # tight family for replace (corpus/tight_replace.py): exact instances and one-edit near misses
         import corpus.tight_replace as TR
